@@ -59,7 +59,21 @@ Container(c, body) ==
 Prog(rec, c, kind, order, var) ==
   <<Make(1, "v", Num(0))>> \o Outer(rec) \o <<Def(8, "measure", <<"n">>, <<Ret(9, G("count", <<Var("n")>>))>>)>>
   \o Container(c, Body(kind, order, var)) \o <<Shout(40, G("measure", <<Num(1)>>)), Shout(41, G("count", <<Num(1)>>)), Shout(42, Var("v"))>>
-Programs == {Prog(rec, c, kind, order, var) : rec \in {"self", "mutual", "flat", "self-write"}, c \in {"block", "function", "loop", "if", "nestedfun", "called-deep"},
+\* SHADOWRET: a parameter / a variable of the body has the NAME of an outer variable of another type and is returned;
+\* the call result is used at the type it really has.  (Whatever a checker infers about `return n` must be about the
+\* inner n.)
+StrL(cs) == [k |-> "str", segs |-> <<[k |-> "lit", v |-> cs]>>]
+ShadowRet(outerTy, how, where) ==
+  LET outerV == IF outerTy = "str" THEN StrL(<<116, 120>>) ELSE Num(7)
+      innerV == IF outerTy = "str" THEN Num(5) ELSE StrL(<<97, 98>>)
+      ret == IF how = "expr" THEN (IF outerTy = "str" THEN Bin("add", Var("n"), Num(1)) ELSE Bin("add", Var("n"), StrL(<<99>>))) ELSE Var("n")
+      f == IF how = "local" THEN Def(2, "f", <<>>, <<Make(4, "n", innerV), Ret(3, ret)>>) ELSE Def(2, "f", <<"n">>, <<Ret(3, ret)>>)
+      call == IF how = "local" THEN G("f", <<>>) ELSE G("f", <<innerV>>)
+      use == IF outerTy = "str" THEN Shout(5, Bin("minus", call, Num(1))) ELSE Shout(5, [k |-> "mcall", o |-> call, m |-> "len", as |-> <<>>])
+  IN IF where = "top" THEN <<Make(1, "n", outerV), f, use, Shout(6, Var("n"))>>
+     ELSE <<Make(1, "n", outerV), [k |-> "block", id |-> 7, b |-> <<f, use>>], Shout(6, Var("n"))>>
+Programs == {ShadowRet(ty, how, wh) : ty \in {"str", "num"}, how \in {"param", "local", "expr"}, wh \in {"top", "block"}} \cup
+            {Prog(rec, c, kind, order, var) : rec \in {"self", "mutual", "flat", "self-write"}, c \in {"block", "function", "loop", "if", "nestedfun", "called-deep"},
                                              kind \in {"flat", "rec", "reads-v"}, order \in {"before", "after"}, var \in {"none", "shadow"}}
 VARIABLES prog, m, fuel, hist
 vars == <<prog, m, fuel, hist>>
